@@ -511,6 +511,8 @@ def run(ctx):
     ctx.do(_c12.r12_8)  # a mailbox's row (UIDVALIDITY, next_uid, UIDs) is touched through its exact key only
     from . import c11 as _c11
     ctx.do(_c11.r11_9)
+    from . import c04 as _c04u
+    ctx.do(_c04u.r4_9)  # APPENDUID reports the UID that was assigned (not the MH key)
     for k, v in NEXT_UID_WRITERS.items():
         ctx.trust(f"frozen next_uid writer: {k} - {v}")
     for k, v in COMMIT_EXEMPT.items():
